@@ -70,12 +70,16 @@ def _compatible(a, b, c=None):
     return va <= (vb | vc) and vb <= (va | vc) and vc <= (va | vb)
 
 
+_SCALE = [1]
+
+
 def _valid(pc, claim):
     stats["side_queries"] += 1
-    s = _mk_solver(SIDE_TIMEOUT_MS)
+    ms = SIDE_TIMEOUT_MS * _SCALE[0]
+    s = _mk_solver(ms)
     s.add(*pc)
     s.add(z3.Not(claim))
-    return zcheck(s, ms=SIDE_TIMEOUT_MS) == z3.unsat
+    return zcheck(s, ms=ms) == z3.unsat
 
 
 def _numeric_relation(pc, ua, ub):
@@ -104,8 +108,19 @@ def _numeric_relation(pc, ua, ub):
     return out
 
 
-def instantiate(fmls, timeout_ms=None):
-    """fmls = path condition + negated goal.  Returns extra axioms (list)."""
+def instantiate(fmls, timeout_ms=None, patient=False):
+    """fmls = path condition + negated goal.  Returns extra axioms (list).
+    patient=True: side conditions get ten times the usual budget (used for a second attempt after a `sat`
+    answer: on a loaded machine a side query can time out, the law instance is then missing and the main
+    query is spuriously satisfiable)"""
+    _SCALE[0] = 10 if patient else 1
+    try:
+        return _instantiate(fmls)
+    finally:
+        _SCALE[0] = 1
+
+
+def _instantiate(fmls):
     t0 = time.time()
     apps = _collect(fmls)
     if not any(apps.values()):
